@@ -313,6 +313,9 @@ def run(tier, seed, rng, known, replay):
     hists = [gen_history(rng, rng.choice([10, 25, 60])) for _ in range(n)]
     r = base.check_histories('C12', hists, ('result', 'state'), acceptor=acceptor, known=known, runner=layers.layer_chunk)
     dist, distinct = base.op_distribution(hists, r['impl_out'])
+    from props import surface
+    for v_ in surface.constructors()[:2]:
+        r['violations'].append({'replay': {'property': 'C12', 'kind': 'surface-probe', 'probe': 'constructors', 'acceptor': v_}, 'found_input': True, 'what': v_})
     # the real Index against the Lean ordered dictionary (the specification side of irun_refines)
     n_spec = 150 if tier == 'quick' else 2500
     shists = [spec_history(rng, rng.choice([10, 30, 60])) for _ in range(n_spec)]
